@@ -283,3 +283,12 @@ Proof.
   split. { eexists. eexists. split; vm_compute; reflexivity. }
   eexists. eexists. vm_compute. reflexivity.
 Qed.
+
+(* chained comparisons with a lifted first and last operand are inside the fragment:
+   (v0 if v3 else 1) < v1 <= (v2 := v0), as a condition and as a value *)
+Definition ex_chain : expr :=
+  ECmp (EIf (v 3) (v 0) (i 1)) (CMore CLt (v 1) (CLast CLe (EWalrus 2 (v 0)))).
+Example lifted_chain_in_fragment :
+  lsafe_val ex_chain = true /\ lsafe_cond ex_chain = true /\
+  lsafe_stmts (one (SAssign (TName (VU 4)) ex_chain)) = true.
+Proof. repeat split; reflexivity. Qed.
